@@ -97,6 +97,14 @@ CHECKS.update({
             "DESIGN.md §2 C07"),
 })
 
+CHECKS.update({
+    "C09": ("fault_enumeration",
+            "socket-identity ledger + pool.used/pool.free after every call + virtual pool clock; offline checker over single-threaded fault histories",
+            "PooledClient histories: (1) every catalogue op x every socket call x every fault kind after a warm-up, for pool_idle_timeout {0,5} x max_pool_size {1,2,None} x ignore_exc; (2) an idle-gap grid (gaps 0,T-1,T,T+1,10T between ops) and slow-call scenarios (time passes inside a call); (3) seeded random histories of 2..8 ops with per-op faults, gaps and quit(). A connection on which a call failed must be closed before the call returns and never used again, a healthy idle one must be reused until idle longer than the timeout, an expired one must be closed and never reused, pool.used must be empty after every call and exhaustion must never be reported with nothing checked out.",
+            "Single-threaded (thread interleavings are C08's subject); 'connection' = socket; input errors may or may not recycle the connection.",
+            "DESIGN.md §2 C09"),
+})
+
 NOT_YET = "check not built yet in this round (runtime-monitoring design in DESIGN.md §2); will be claimed once its monitor exists"
 
 manifest = {
